@@ -3,7 +3,7 @@
    Main result [batch_equiv]: for every partition of a log into ApplyRaftRequest calls and batch-operator
    lifetimes, the committed store and the multiset of (request id, reply) pairs equal those of applying
    the log one request at a time ([seq_run]) — under two named hypotheses about the handlers:
-     [Hindep]   (isolation, C12) the writes a batchable command on another primary key produces never
+     [Hindep]   (isolation, C12) the writes a batch candidate (batchable name, not a multi-key DEL) on another primary key produces never
                 change what a batchable command reads;
      [Hnoabort] no batchable command that passed isValidBatchableWrite fails with an error that needs an abort.
    [Hindep] is derived from read-set / write-set disjointness in [indep_from_rw_sets].
@@ -94,14 +94,14 @@ Section Equiv.
 
   (* ------------------------------------------------------------------ hypotheses *)
   Hypothesis Hindep : forall q q' s' ws r s,
-    name_batchable q = true -> name_batchable q' = true -> rpk q <> rpk q' ->
+    batch_cand q = true -> batch_cand q' = true -> rpk q <> rpk q' ->
     handler q' s' = Ok ws r -> handler q (commit_ws s ws) = handler q s.
-  Hypothesis Hnoabort : forall q s e, name_batchable q = true -> rvalid q = true -> handler q s <> Fail e true.
+  Hypothesis Hnoabort : forall q s e, batch_cand q = true -> rvalid q = true -> handler q s <> Fail e true.
 
   (* the pending write batch is made of writes of batchable commands whose primary keys are in dupCheckMap *)
   Inductive wb_ok : list bytes -> list W -> Prop :=
   | wb_nil : forall d, wb_ok d []
-  | wb_snoc : forall d wbs q' s' ws r, wb_ok d wbs -> In (rpk q') d -> name_batchable q' = true ->
+  | wb_snoc : forall d wbs q' s' ws r, wb_ok d wbs -> In (rpk q') d -> batch_cand q' = true ->
       handler q' s' = Ok ws r -> wb_ok d (wbs ++ ws).
 
   Lemma wb_ok_mono : forall d d' w, wb_ok d w -> incl d d' -> wb_ok d' w.
@@ -111,7 +111,7 @@ Section Equiv.
     - eapply wb_snoc; eauto.
   Qed.
 
-  Lemma indep_wb : forall d w q s, wb_ok d w -> name_batchable q = true -> ~ In (rpk q) d ->
+  Lemma indep_wb : forall d w q s, wb_ok d w -> batch_cand q = true -> ~ In (rpk q) d ->
     handler q (commit_ws s w) = handler q s.
   Proof.
     intros d w q s H Hb Hn. induction H as [d|d wbs q' s' ws r H IH Hin Hb' Hh].
@@ -144,12 +144,12 @@ Section Equiv.
   Proof. intros. constructor; simpl; auto; [now rewrite app_nil_r | constructor]. Qed.
 
   Lemma is_batchable_true : forall st q, is_batchable st q = true ->
-    name_batchable q = true /\ ~ In (rpk q) (dup st).
+    batch_cand q = true /\ ~ In (rpk q) (dup st).
   Proof.
-    intros st q H. unfold Model.is_batchable in H.
-    destruct (bytes_eqb (rname q) del_name && (2 <? rnargs q)); [discriminate|].
+    intros st q H. unfold Model.is_batchable in H. unfold batch_cand.
+    destruct (multi_del q); [discriminate|].
     apply andb_true_iff in H as [H H2]. apply andb_true_iff in H as [H1 _].
-    split; [exact H1|]. apply mem_bytes_not_in. now apply negb_true_iff.
+    split; [now rewrite H1|]. apply mem_bytes_not_in. now apply negb_true_iff.
   Qed.
 
   Definition sim_result (r1 : stepres store W R) (r2 : option (store * R)) (q : req) (out oseq : list (N * R)) : Prop :=
@@ -447,7 +447,7 @@ Section OpInv.
     N.of_nat (length (pend st)) < max_db_batch_cmd_num.
   Proof.
     intros st q H. unfold is_batchable in H.
-    destruct (bytes_eqb (rname q) del_name && (2 <? rnargs q)); [discriminate|].
+    destruct (multi_del q); [discriminate|].
     apply andb_true_iff in H as [H _]. apply andb_true_iff in H as [_ H]. now apply N.ltb_lt.
   Qed.
 
@@ -535,12 +535,12 @@ Section RWSets.
 
   Hypothesis Hframe : forall s w k, wkey w <> k -> get (apply_w s w) k = get s k.
   Hypothesis Hreads : forall q s s', (forall k, rset q k -> get s k = get s' k) -> handler q s = handler q s'.
-  Hypothesis Hwrites : forall q s ws r, handler q s = Ok ws r -> forall w, In w ws -> wset q (wkey w).
-  Hypothesis Hisolation : forall q q' k, name_batchable q = true -> name_batchable q' = true ->
+  Hypothesis Hwrites : forall q s ws r, batch_cand q = true -> handler q s = Ok ws r -> forall w, In w ws -> wset q (wkey w).
+  Hypothesis Hisolation : forall q q' k, batch_cand q = true -> batch_cand q' = true ->
     rpk q <> rpk q' -> wset q' k -> rset q k -> False.
 
   Theorem indep_from_rw_sets : forall q q' s' ws r s,
-    name_batchable q = true -> name_batchable q' = true -> rpk q <> rpk q' ->
+    batch_cand q = true -> batch_cand q' = true -> rpk q <> rpk q' ->
     handler q' s' = Ok ws r -> handler q (commit_ws store W apply_w s ws) = handler q s.
   Proof.
     intros q q' s' ws r s Hb Hb' Hpk Hh. apply Hreads. intros k Hk.
@@ -583,7 +583,7 @@ Definition tapply (s : tstore) (w : bytes * N) : tstore := w :: s.
 Definition thandler (q : req) (s : tstore) : outcome (bytes * N) N := Ok [(rpk q, rbody q)] (tget s (rpk q)).
 
 Lemma thandler_indep : forall q q' s' ws r s,
-  name_batchable q = true -> name_batchable q' = true -> rpk q <> rpk q' ->
+  batch_cand q = true -> batch_cand q' = true -> rpk q <> rpk q' ->
   thandler q' s' = Ok ws r -> thandler q (commit_ws tstore (bytes * N) tapply s ws) = thandler q s.
 Proof.
   intros q q' s' ws r s _ _ Hpk H. unfold thandler in *. inversion H; subst. simpl.
@@ -591,5 +591,5 @@ Proof.
   apply bytes_eqb_eq in E. congruence.
 Qed.
 
-Lemma thandler_noabort : forall q s e, name_batchable q = true -> rvalid q = true -> thandler q s <> Fail e true.
+Lemma thandler_noabort : forall q s e, batch_cand q = true -> rvalid q = true -> thandler q s <> Fail e true.
 Proof. intros. unfold thandler. discriminate. Qed.
